@@ -15,7 +15,13 @@ def reproduce_scenario(context, scenario, *, keyword='Given'):
         if included_scenario.name == scenario:
             for step in included_scenario.steps:
                 if step.step_type in ['given', 'when']:
-                    context.execute_steps('{} {}'.format(keyword, step.name))
+                    step_text = '{} {}'.format(keyword, step.name)
+                    if step.table:
+                        # Reproduce the table (e.g. event parameters) of the step as well
+                        rows = [step.table.headings] + [row.cells for row in step.table.rows]
+                        step_text += ''.join(
+                            '\n| {} |'.format(' | '.join(cells)) for cells in rows)
+                    context.execute_steps(step_text)
             return
     assert False, 'Unknown scenario {}.'.format(scenario)
 
